@@ -2472,17 +2472,41 @@ private:
 
         constexpr const term_subset& make_nterm_first(size16_t nt)
         {
-            if (nterm_first_analyzed.test(nt))
-                return nterm_first[nt];
-            nterm_first_analyzed.set(nt);
-
-            const utils::slice& s = gi.nterm_rule_slices[nt];
-            for (size_t i = 0u; i < s.n; ++i)
-            {
-                const rule_info& ri = gi.rule_infos[s.start + i];
-                nterm_first[nt].add(make_right_side_slice_first(ri, 0));
-            }
+            if (!nterm_first_analyzed)
+                analyze_nterm_first();
             return nterm_first[nt];
+        }
+
+        constexpr void analyze_nterm_first()
+        {
+            nterm_first_analyzed = true;
+            bool changed = true;
+            while (changed)
+            {
+                changed = false;
+                for (size_t r = 0u; r < rule_count; ++r)
+                {
+                    const rule_info& ri = gi.rule_infos[r];
+                    term_subset first = nterm_first[ri.l_idx];
+                    for (size_t i = 0u; i < ri.r_elements; ++i)
+                    {
+                        const symbol& s = gi.right_sides[ri.r_idx][i];
+                        if (s.term)
+                        {
+                            first.set(s.idx);
+                            break;
+                        }
+                        first.add(nterm_first[s.idx]);
+                        if (!make_nterm_empty(s.idx))
+                            break;
+                    }
+                    if (!(first == nterm_first[ri.l_idx]))
+                    {
+                        nterm_first[ri.l_idx] = first;
+                        changed = true;
+                    }
+                }
+            }
         }
 
         constexpr bool make_right_side_slice_empty(const rule_info& ri, size_t start)
@@ -2543,7 +2567,7 @@ private:
         nterm_subset nterm_empty = { };
         term_subset nterm_first[nterm_count] = { };
         nterm_subset nterm_empty_analyzed = { };
-        nterm_subset nterm_first_analyzed = { };
+        bool nterm_first_analyzed = false;
     };
 
     constexpr static size16_t get_parse_table_idx(bool term, size16_t idx)
